@@ -373,7 +373,6 @@ class LogicalType(type):  # noqa
                         e if isinstance(e, exc.ParseError) else exc.ParseError(origin_exc=e)
                     )
                     break
-            return value
 
         elif cls.combinator == "|":
             # Union type
